@@ -141,17 +141,38 @@ namespace TAO_PEGTL_NAMESPACE
          Control< Rule >::start( static_cast< const ParseInput& >( in ), st... );
          auto result = internal::match_control_unwind< Rule, A, ( use_guard ? rewind_mode::optional : M ), Action, Control >( in, st... );
          if( result ) {
-            if constexpr( has_apply_void ) {
-               Control< Rule >::template apply< Action >( m.inputerator(), static_cast< const ParseInput& >( in ), st... );
-            }
-            else if constexpr( has_apply_bool ) {
-               result = Control< Rule >::template apply< Action >( m.inputerator(), static_cast< const ParseInput& >( in ), st... );
-            }
-            else if constexpr( has_apply0_void ) {
-               Control< Rule >::template apply0< Action >( static_cast< const ParseInput& >( in ), st... );
-            }
-            else if constexpr( has_apply0_bool ) {
-               result = Control< Rule >::template apply0< Action >( static_cast< const ParseInput& >( in ), st... );
+            if constexpr( has_apply || has_apply0 ) {
+               const auto call_action = [ & ]() -> bool {
+                  if constexpr( has_apply_void ) {
+                     Control< Rule >::template apply< Action >( m.inputerator(), static_cast< const ParseInput& >( in ), st... );
+                     return true;
+                  }
+                  else if constexpr( has_apply_bool ) {
+                     return Control< Rule >::template apply< Action >( m.inputerator(), static_cast< const ParseInput& >( in ), st... );
+                  }
+                  else if constexpr( has_apply0_void ) {
+                     Control< Rule >::template apply0< Action >( static_cast< const ParseInput& >( in ), st... );
+                     return true;
+                  }
+                  else {
+                     return Control< Rule >::template apply0< Action >( static_cast< const ParseInput& >( in ), st... );
+                  }
+               };
+#if defined( __cpp_exceptions )
+               if constexpr( internal::has_unwind< Control< Rule >, void, const ParseInput&, States... > ) {
+                  // An exception thrown by the action of this rule passes through this rule, too.
+                  internal::unwind_guard ug( [ & ] {
+                     Control< Rule >::unwind( static_cast< const ParseInput& >( in ), st... );
+                  } );
+                  result = call_action();
+                  ug.unwind.reset();
+               }
+               else {
+                  result = call_action();
+               }
+#else
+               result = call_action();
+#endif
             }
          }
          if( result ) {
